@@ -29,6 +29,9 @@ func main() {
 		case "bounds":
 			boundsMain(os.Args[2:])
 			return
+		case "one": // development / replay aid: run the four entry points on one file and print what came back
+			oneMain(os.Args[2:])
+			return
 		}
 	}
 	e := lib.Init("C01", "exploration")
@@ -132,7 +135,8 @@ func (d *driver) run() {
 			f.what, f.id, perKey[f.key], len(f.text), quoteBytes(f.text, 160)), f.ext, f.text)
 	}
 
-	e.Extra("bound", fmt.Sprintf("B(n) = %d*(n+16)^2 lexer+parser steps per entry-point call", budgetC))
+	e.Extra("bound", fmt.Sprintf("B(n) = %d*(n+16)*min(n+16,%d) lexer+parser steps per entry-point call; CPU net %d s and heap net %d MiB per case", budgetC, budgetKnee, cpuNetSeconds, heapNetBytes>>20))
+	e.Extra("max_case_cpu_ms", map[string]any{"ms": d.sum.MaxCPUms, "case": d.sum.MaxCPUID})
 	e.Extra("entry_point_calls", d.sum.Calls)
 	e.Extra("outcomes_by_entry", d.sum.Outcomes)
 	e.Extra("max_ratio_quadratic", map[string]any{"steps_over_n16_squared": d.sum.MaxQuad, "case": d.sum.MaxQuadID})
@@ -140,11 +144,13 @@ func (d *driver) run() {
 	e.Extra("max_ratio_linear_inputs_ge_256B", map[string]any{"steps_over_n16": d.sum.MaxLinBig, "case": d.sum.BigID})
 	e.Extra("diagnostic_position_carriers", d.sum.ErrFrom)
 	e.Extra("families_cases_rejected_accepted", d.sum.Fam)
+	sort.Strings(d.sum.WholeRej)
+	e.Extra("unmodified_texts_not_accepted", d.sum.WholeRej)
 	e.Extra("worker_deaths", d.deaths)
 	e.Extra("run_after_accept", d.runStats)
 	e.Extra("run_crashes_not_judged_by_site", d.others)
 	e.Extra("bases", len(bases))
-	e.Assume("Step hooks sit in parser.current() and the lexer main loops; a loop that bypasses both is seen only by the CPU/heap net (20 s CPU, 2 GiB heap per case)",
+	e.Assume("Step hooks sit in parser.current() and the lexer main loops; a loop that bypasses both is seen only by the CPU/heap net (CPU time and live heap per case)",
 		"inputs above 64 KiB are not explored",
 		"run-after-accept judges only nil-dereference / nil-interface Go panics of accepted mutants of generated side-effect-free programs")
 
@@ -436,7 +442,7 @@ func (d *driver) runJob(idx int, j job) (accepted []string) {
 		}
 		text := materialise(j.Bases, c)
 		if cr.Net != "" {
-			what := "more than 20 s of CPU time on one input of at most 64 KiB"
+			what := fmt.Sprintf("more than %d s of CPU time on one input of at most 64 KiB", cpuNetSeconds)
 			if cr.Net == "heap" {
 				what = "more than 2 GiB of live heap on one input of at most 64 KiB"
 			}
@@ -526,6 +532,10 @@ func (d *driver) mergeSummary(s wsummary) {
 	}
 	if s.MaxLin > d.sum.MaxLin {
 		d.sum.MaxLin, d.sum.MaxLinID = s.MaxLin, s.MaxLinID
+	}
+	d.sum.WholeRej = append(d.sum.WholeRej, s.WholeRej...)
+	if s.MaxCPUms > d.sum.MaxCPUms {
+		d.sum.MaxCPUms, d.sum.MaxCPUID = s.MaxCPUms, s.MaxCPUID
 	}
 	if s.MaxLinBig > d.sum.MaxLinBig {
 		d.sum.MaxLinBig, d.sum.BigID = s.MaxLinBig, s.BigID
